@@ -3,10 +3,10 @@ CONSTANTS
   Procs = {p1, p2}
   Versions = {1, 2}
   Bits = {32, 64}
-  MaxSteps = 8
-  Variant = "tmplNeverRefreshed"
-  WithSv = FALSE
-  SvMode = "asWritten"
+  MaxSteps = 7
+  Variant = "ok"
+  WithSv = TRUE
+  SvMode = "ideal"
 INVARIANT TypeOK
 INVARIANT Coherent
 INVARIANT NoSharing
